@@ -63,7 +63,8 @@ def generate(rng, tier):
     if len(ctxs) > 160:
         ctxs = ctxs[:160]
     return {"property": ID, "grammar": ab, "contexts": ctxs, "schedules": scheds,
-            "query_order_seed": rng.getrandbits(32), "algs": ["earley", "cky"]}
+            "query_order_seed": rng.getrandbits(32), "algs": ["earley", "cky"],
+            "prelude": rng.choice([None, None, 0, 1, 2, 3])}
 
 
 def expected_mask(ab, cache, ctx):
@@ -94,6 +95,12 @@ def execute(sc):
                                                       if r[0] is True or (r[0] is not False and r[0] > 0)]))
     canon = gen.canon(ab)
     out.sig = []
+    if sc.get("prelude") is not None:
+        try:
+            gen.prelude(int(sc["prelude"]))
+            out.probe("prelude_other_vocabulary")
+        except Exception:
+            out.probe("prelude_raised")
     for si, s in enumerate(sc["schedules"]):
         apply_schedule(s)
         chaos.note_event(f"schedule {si}")
